@@ -118,6 +118,10 @@ func (w *pw) stmt(s *Stmt) {
 	case SLoop:
 		v := "$" + s.Var
 		n := strconv.Itoa(s.N)
+		if s.BoundVar != "" {
+			n = "$" + s.BoundVar
+		}
+		cmp := s.Cmp
 		switch s.Loop {
 		case LFor:
 			init := v + " = 1"
@@ -136,10 +140,16 @@ func (w *pw) stmt(s *Stmt) {
 			case "=+":
 				step = v + " = " + v + " + 1"
 			}
-			w.block("for ("+init+"; "+v+" <= "+n+"; "+step+")", s.Body, "")
+			if cmp == "" {
+				cmp = "<="
+			}
+			w.block("for ("+init+"; "+v+" "+cmp+" "+n+"; "+step+")", s.Body, "")
 		case LWhile:
 			w.line(v + " = 0;")
-			w.line("while (" + v + " < " + n + ") {")
+			if cmp == "" {
+				cmp = "<"
+			}
+			w.line("while (" + v + " " + cmp + " " + n + ") {")
 			w.ind++
 			w.line(v + "++;")
 			w.stmts(s.Body)
@@ -152,7 +162,10 @@ func (w *pw) stmt(s *Stmt) {
 			w.line(v + "++;")
 			w.stmts(s.Body)
 			w.ind--
-			w.line("} while (" + v + " < " + n + ");")
+			if cmp == "" {
+				cmp = "<"
+			}
+			w.line("} while (" + v + " " + cmp + " " + n + ");")
 		case LForeach:
 			subj := s.Subj
 			if subj == nil {
@@ -230,6 +243,8 @@ func exprSrc(e *Expr, top bool) string {
 			return "true"
 		}
 		return "false"
+	case ENull:
+		return "null"
 	case EVar:
 		return "$" + e.S
 	case EBin:
